@@ -261,7 +261,7 @@ MODEL_OPS = ("simulate", "remove_absence", "insert_absence", "reverse_log", "bac
 def applicable(case):
     """cases the model covers: sequences of simulate / remove_absence / insert_absence operations"""
     # the model fixes unit_time = 1 (DESIGN S.4)
-    return all(op["op"] in MODEL_OPS and op.get("unit_time", 1) == 1 for op in case["ops"])
+    return all((op["op"] in MODEL_OPS or op["op"] == "report") and op.get("unit_time", 1) == 1 for op in case["ops"])
 
 
 def canon_none(d):
@@ -291,10 +291,22 @@ def compare(case, trace, cone=None, model=None):
     if n_ok == 0:
         return []
     ops = case["ops"][:n_ok]
+    # "report" operations (Gantt data, state queries) are read-only: the model does not have them, the
+    # state after one is compared with the model's state after the operation before it
+    real = [o for o in ops if o["op"] != "report"]
     if model is None:
-        model = run_model([(case, ops)])[0]
+        model = run_model([(case, real)])[0] if real else []
     out = []
-    for oi, (rec, m) in enumerate(zip(trace[:n_ok], model)):
+    aligned = []
+    j = 0
+    for rec in trace[:n_ok]:
+        if rec["op"]["op"] == "report":
+            if j > 0:
+                aligned.append((dict(rec, snaps=[]), dict(model[j - 1], snaps=[])))
+        else:
+            aligned.append((rec, model[j]))
+            j += 1
+    for oi, (rec, m) in enumerate(aligned):
         ms, ps = m["snaps"], rec["snaps"]
         if rec["snaps"] and rec["op"]["op"] != "backward":      # the inner run of a backward op is compared through its result only
             if [(k, ph) for (k, ph, _) in ms] != [(k, ph) for (k, ph, w, _) in ps]:
